@@ -34,7 +34,7 @@ def inject_unwritable(rng, graph, how):
         target.metadata = dict(target.metadata, bad=[[1, 2], [3]])
 
 
-def run(ctx):
+def _run_main(ctx):
     import nir
     rng = ctx.rng
     tmpdir = tempfile.mkdtemp(prefix="nirverif-c17-", dir="/var/tmp")
@@ -218,3 +218,11 @@ def _scribble_graph(g):
             elif isinstance(v, dict):
                 v["__scribble__"] = 1
     g.edges.append(("scribble", "scribble"))
+
+
+def run(ctx):
+    _run_main(ctx)
+    # history independence: the same call on a live graph object with a history of edits / calls and on a twin rebuilt
+    # from its public state (harness/history.py)
+    import history
+    history.run(ctx, ["to_dict", "file_rt", "path_rt", "check", "ports"], {})
